@@ -642,6 +642,7 @@ func init() {
 			"enumerated over ordered pairs (previous, new) of assignment shapes {empty, one, fifty, escape-heavy labels, mixed states, job move, other-one, 300 targets} x every offset N in 0..len(file)+2 (thorough: all pairs, stride 1; quick: stride 1 for four pairs and for the old-file-name path, stride 7/211 otherwise), " +
 			"plus the old-file-name fall-back interrupted while it is first rewritten, plus the update sweep in a directory that still holds a stale old-version targets.json (5 pairs incl. empty assignments), plus the process KILLED inside the store write at byte N (strace injects SIGKILL on the write() that follows the cut one, so no clean-up code runs; 4 pairs, thorough 8, strided offsets) followed by three restarts and an acknowledged follow-up update, plus SIGKILL of the real `kvass sidecar` binary during updates; after each fault a fresh manager loads the directory, then the running sidecar is sent the SAME update again without fault (as the coordinator would) and a restart must resume it (after a cut write: twice, then a follow-up update and another restart); " +
 			"mode refused: an update refused because one of two reload callbacks fails is followed by a restart (must resume the assignment acknowledged before it), then repeated and restarted again (must resume the new one); " +
+			"in every second SIGKILL case the sidecar runs in file mode (--config.file) and the restarted process finds a Prometheus that takes 1.5 s to reload: the first answer of its API must already show the resumed assignment; " +
 			"non-trivial = a sweep chunk with at least one offset executed; distinct = (mode, previous, new, offset range)",
 		Assumptions: []string{
 			"a write cut by RLIMIT_FSIZE after N bytes leaves the same bytes on disk as a process killed / a disk filling up at that byte; later fsync/power-loss behaviour of the file system is out of scope",
